@@ -130,6 +130,8 @@ func c19GoodField(t *rapid.T, dt storage.DataType, sep string) (string, c19Val) 
 		return sp, c19Bool(l == "1" || l == "true" || l == "t")
 	}
 	s := rapid.SampledFrom([]string{"", "a", "hello world", "x" + sep + "y", `say "hi"`, "line1\nline2", " padded ", "日本", "N", "\\n", "1", "true", `"`, sep, "a,b;c|d",
+		// texts that are markers in other tools' dialects (end of data, comments, NULL spellings): here they are just strings
+		`\.`, `\\.`, ".", "#", "# note", "--", "//x", "NULL", "null", `\0`, "EOF", `\N `, ` \N`, `\n`, `\N\N`, "\x1a",
 		// bytes that are not UTF-8 (a Latin-1 export, a stray byte): strings are byte strings
 		"caf\xe9", "\xff\xfe", "\xc3", "na\xefve \x80", "\xed\xa0\x80"}).Draw(t, "str")
 	return s, c19Str(s)
@@ -195,7 +197,7 @@ func c19Gen(t *rapid.T) c19Case {
 		for s := 0; s < width; s++ {
 			rs := readers[s]
 			if len(rs) == 0 {
-				fields[s] = c19Field{Text: rapid.SampledFrom([]string{"", "junk", "42", "\\N"}).Draw(t, "unread")}
+				fields[s] = c19Field{Text: rapid.SampledFrom([]string{"", "junk", "42", "\\N", `\.`, "#", "--"}).Draw(t, "unread")}
 				continue
 			}
 			sameType := true
